@@ -42,20 +42,23 @@ func callEscape(m *proc.P, fn, in, pad string) (escResp, error) {
 	return r, err
 }
 
-// hostile payload for a lexical context; every payload declares the identifier ZQInjected when it escapes
-func payloadFor(ctx string) string {
+// hostile payloads for a lexical context; every payload declares the identifier ZQInjected when it escapes. Several
+// shapes are tried: at top level, and closing an enclosing struct or function body first.
+func payloadsFor(ctx string) []string {
 	switch ctx {
 	case "block":
-		return "a */ var ZQInjected = 1 /* b"
+		return []string{"a */ var ZQInjected = 1 /* b", "a */ }\nvar ZQInjected = 1\ntype ZQT struct { /* b", "a*/\nvar ZQInjected = 1\n/*b"}
 	case "line":
-		return "a\nvar ZQInjected = 1 // b"
+		return []string{"a\nvar ZQInjected = 1 // b", "a\n}\nvar ZQInjected = 1\ntype ZQT struct {\n// b", "a\n}\nvar ZQInjected = 1\nfunc ZQF() {\n// b"}
 	case "raw":
-		return "a` + \"\"; var ZQInjected = `b"
+		return []string{"a` + \"\"; var ZQInjected = `b"}
 	case "interp":
-		return "a\"; var ZQInjected = \"b"
+		return []string{"a\"; var ZQInjected = \"b", "a\"\nvar ZQInjected = \"b"}
 	}
-	return "a"
+	return []string{"a"}
 }
+
+func payloadFor(ctx string) string { return payloadsFor(ctx)[0] }
 
 // declSkeleton lists the top-level declarations of every Go file of a tree (comments and literal values erased).
 func declSkeleton(dir string) (map[string][]string, bool) {
@@ -170,9 +173,9 @@ func CheckC09(run *ev.Run) {
 		return
 	}
 	_ = template.FuncMap{}
-	alphabet := []string{"*", "/", "`", "\"", "\\", "\n", "a", " ", "[", "]", "+", "\t", "é"}
+	alphabet := []string{"*", "/", "`", "\"", "\\", "\n", "a", " ", "[", "]", "+", "\t", "é", "\ufeff"}
 	var inputs []string
-	inputs = append(inputs, "", "*/", "**/", "*//", "/*/", "a*/b*/", "`", "``", "a`b", "\n", "a\nb\n", "x */ func init() {} /*", "a\n//go:build ignore", "`+\"`\"+`")
+	inputs = append(inputs, "\ufeff", "a\ufeffb`", "", "*/", "**/", "*//", "/*/", "a*/b*/", "`", "``", "a`b", "\n", "a\nb\n", "x */ func init() {} /*", "a\n//go:build ignore", "`+\"`\"+`")
 	n := 400
 	if run.Tier == "thorough" {
 		n = 20000
@@ -187,7 +190,7 @@ func CheckC09(run *ev.Run) {
 	for _, in := range inputs {
 		type c struct{ fn, real, pad string }
 		cases := []c{{"comment", generator.VerifPadComment(in), " "}, {"comment", generator.VerifPadComment(in, "  "), "  "},
-			{"blockcomment", generator.VerifBlockComment(in), ""}, {"backticks", escBT(in), ""}, {"backticks", generator.VerifReadableSpec([]byte(in)), ""}}
+			{"blockcomment", generator.VerifBlockComment(in), ""}, {"backticks", escBT(in), ""}, {"readable", generator.VerifReadableSpec([]byte(in)), ""}}
 		for _, x := range cases {
 			resp, err := callEscape(m, x.fn, in, x.pad)
 			run.Traces++
@@ -209,7 +212,7 @@ func CheckC09(run *ev.Run) {
 							bad = true
 						}
 					}
-				case "backticks":
+				case "backticks", "readable":
 					bad = strings.Count(strings.ReplaceAll(x.real, "`+\"`\"+`", ""), "`") > 0
 				}
 				rep := map[string]string{"helper": x.fn, "input": in, "real_output": x.real, "model_output": resp.Out}
@@ -217,6 +220,16 @@ func CheckC09(run *ev.Run) {
 					run.Deviation("escaper-unsafe:"+x.fn, "the "+x.fn+" helper lets its delimiter through", rep)
 				} else {
 					run.Broken("corr:C09:"+x.fn, "Lean model and the "+x.fn+" helper disagree", rep)
+				}
+			}
+			if x.fn == "readable" && !strings.Contains(in, "\r") {
+				// the embedded expression must evaluate to a text that is the input up to the JSON escape of U+FEFF
+				want := strings.ReplaceAll(in, "\ufeff", `\ufeff`)
+				if resp.Eval == nil || *resp.Eval != want {
+					run.Broken("model:evalGo-readable", "model evaluation of the readable spec text is not the input", map[string]string{"in": in})
+				}
+				if strings.Contains(x.real, "\ufeff") {
+					run.Deviation("escaper-unsafe:readable-bom", "generateReadableSpec lets a byte order mark through (illegal in Go source)", map[string]string{"input": in, "real_output": x.real})
 				}
 			}
 			if x.fn == "backticks" && !strings.Contains(in, "\r") && (resp.Eval == nil || *resp.Eval != in) {
@@ -299,33 +312,39 @@ func CheckC09(run *ev.Run) {
 				run.Deviation("site-in-code:"+f, "the free-text field "+f+" is printed in code position", map[string]string{"field": f})
 				continue
 			}
-			vals := map[string]string{}
-			for k, v := range neutralVals {
-				vals[k] = v
+			pls := payloadsFor(ctx)
+			if len(notOK[f]) == 0 && run.Tier != "thorough" {
+				pls = pls[:1]
 			}
-			vals[f] = payloadFor(ctx)
-			spec := TextSpec(vals)
-			root, trees, gerr := renderBoth("c09h", spec)
-			run.Case(f + "|" + ctx)
-			if gerr != nil {
-				st["hostile:generation-fails"]++
-				_ = os.RemoveAll(root)
-				continue
-			}
-			for kind, t := range trees {
-				sk, injected := declSkeleton(t)
-				delta := skeletonDiff(skN[kind], sk)
-				if injected || len(delta) > 0 {
-					st["hostile:INJECTED"]++
-					run.Deviation(fmt.Sprintf("injection:%s:%s:%s", kind, f, ctx),
-						fmt.Sprintf("free text in %s escapes its %s context in the generated %s: files with a different declaration skeleton %v, injected identifier present: %v", f, ctx, kind, delta, injected),
-						map[string]interface{}{"field": f, "payload": vals[f], "target": kind, "files": delta, "spec": json.RawMessage(spec),
-							"how": "swagger generate " + kind + " -f spec.json -t target -A textapp, then look for ZQInjected in the listed files"})
-				} else {
-					st["hostile:contained"]++
+			for pi, payload := range pls {
+				vals := map[string]string{}
+				for k, v := range neutralVals {
+					vals[k] = v
 				}
+				vals[f] = payload
+				spec := TextSpec(vals)
+				root, trees, gerr := renderBoth("c09h", spec)
+				run.Case(fmt.Sprintf("%s|%s|%d", f, ctx, pi))
+				if gerr != nil {
+					st["hostile:generation-fails"]++
+					_ = os.RemoveAll(root)
+					continue
+				}
+				for kind, t := range trees {
+					sk, injected := declSkeleton(t)
+					delta := skeletonDiff(skN[kind], sk)
+					if injected || len(delta) > 0 {
+						st["hostile:INJECTED"]++
+						run.Deviation(fmt.Sprintf("injection:%s:%s:%s", kind, f, ctx),
+							fmt.Sprintf("free text in %s escapes its %s context in the generated %s: files with a different declaration skeleton %v, injected identifier present: %v", f, ctx, kind, delta, injected),
+							map[string]interface{}{"field": f, "payload": vals[f], "target": kind, "files": delta, "spec": json.RawMessage(spec),
+								"how": "swagger generate " + kind + " -f spec.json -t target -A textapp, then look for ZQInjected in the listed files"})
+					} else {
+						st["hostile:contained"]++
+					}
+				}
+				_ = os.RemoveAll(root)
 			}
-			_ = os.RemoveAll(root)
 		}
 	}
 	if len(run.Samples) == 0 {
